@@ -145,6 +145,8 @@ def judge(case, rec):
     sv, q = case["survey"], case["query"]
     resp = zz9enc.encode(sv, q)
     cube = lib.cube(resp, case["transforms"])
+    for _p in cube.partitions:
+        lib.warm(_p, case.get("warmup"))
     dims = apparent_dims(sv, q)
     nd = len(dims)
     rec.event("shape=" + "x".join(case["shape"]))
